@@ -9,4 +9,32 @@ PROPS = {
              "watchdog 20 s (typical 0.1-5 ms). non-trivial = entry file parses without errors (IR compilation reached) and has >=3 statements.",
         assumptions=["a 20 s watchdog for <=4 KiB inputs stands in for 'time bound proportional to the input size'"],
     ),
+    "C08": dict(
+        engine="p_compile", quick_checks=20000, thorough_checks=300000, quick_shards=14, thorough_shards=16,
+        gomaxprocs=[1, 2, 4, 16], thorough_race=True, thorough_budget_s=3000,
+        rule="inputs: the C07 core (repo seeds, construct snippets, import cycles) and rapid 1-4 file sets of grammar text (errors included). "
+             "oracle: ordered canonical projection (objects and their order, edges, attributes, boards, config) or the error text of 3 sequential "
+             "compiles is identical; then 2-8 (thorough 2-32) goroutines compile the same input while up to 6 other programs of a fixed pool are "
+             "compiled concurrently: every result equals its sequential one. Shards run under GOMAXPROCS 1/2/4/16; thorough tier uses a -race "
+             "build. non-trivial = >=4 statements and at least one of glob/class/import/vars/board.",
+        assumptions=["only schedules that the Go runtime actually produces under these GOMAXPROCS values, goroutine counts and -race are observed"],
+    ),
+    "C09": dict(
+        engine="p_compile", quick_checks=30000, thorough_checks=1000000, quick_shards=14, thorough_shards=16,
+        rule="inputs: repo seeds and snippets (class/sql_table with fields and column edges, sequence diagrams, grids, underscores, boards), then "
+             "rapid: structured compilable diagrams (containers, all shapes, class/table, sequence, grid, nears; hostile names) and 1-4 file sets of "
+             "grammar text filtered by 'compiles' (rejected inputs are counted). oracle per board (recursively): Objects duplicate-free, parent "
+             "chain of every object ends at this board's root, parent lists the child exactly once in ChildrenArray and under lower(ID) in the "
+             "map, map and array sizes agree, class/sql_table objects have no children, every edge endpoint is an object of the same board; for "
+             "generated single-file glob-free diagrams Objects are in order of first textual appearance. non-trivial = >=1 container and >=1 edge.",
+    ),
+    "C06": dict(
+        engine="p_compile", quick_checks=40000, thorough_checks=1000000, quick_shards=14, thorough_shards=16,
+        rule="inputs: repo .d2 files, every plain/hostile/keyword name (quotes, dots, spaces, arrows, keywords in 4 letter cases, non-ASCII, case-fold "
+             "orbits) as root object, child and connection end, then rapid: structured diagrams with hostile names, programs of 1-6 drawn names in nested "
+             "positions with connections between them, grammar-text file sets filtered by 'compiles'. oracle per board: ParseKey(ID) is one segment == "
+             "the object's name; ParseKey(AbsID) == name path from the root; no two distinct objects with EqualFold-equal AbsIDs; GetObj(AbsID) returns "
+             "the object; each connection AbsID is unique, parses (ParseMapKey) to one connection with its index, and GetEdge / Root.HasEdge on it "
+             "return exactly that connection. non-trivial = >=2 objects and >=1 name that needs quoting or is non-ASCII.",
+    ),
 }
